@@ -53,6 +53,18 @@ SPECS = {
         seq_mode="histories",
         cap={"quick": 600, "thorough": 6000},
     ),
+    "C06": pcheck.PSpec(
+        "C06",
+        clauses=["Accepts", "Compiles", "BookingFault", "RowsMatch", "SpuriousFault", "FaultMissed", "RequestsAdmissible",
+                 "LibrariesRequested", "TokensPerUse"],
+        profiles={t: [("MCQueryGen_c06_%s.cfg" % b, None, {"backend": b, "declv": "none"}) for b in pcheck.ALL_BACKENDS]
+                     + [("MCQueryGen_c06z_%s.cfg" % b, None, {"backend": b, "declv": "fresh_Z"}) for b in pcheck.ALL_BACKENDS]
+                     + [("MCQueryGen_c06_%s.cfg" % b, None, {"backend": b, "declv": "replace_A"}) for b in pcheck.ALL_BACKENDS]
+                  for t in ("quick", "thorough")},
+        events={"quick": 8, "thorough": 24},
+        cap={"quick": 1500, "thorough": 20000},
+        event_cfg="EventGen_wide.cfg",
+    ),
     "C12": pcheck.PSpec(
         "C12",
         clauses=["Accepts", "Compiles", "RowsMatch", "SpuriousFault", "BookingFault", "SchemaMatches"],
